@@ -52,7 +52,8 @@ func VerifC18Estimate() {
 	send, sns := verifInstant("send")
 	delay := verifI64("delay")
 	verifAssume(delay >= 0)
-	verifAssume(delay < 64*1000000000-verifResolution)
+	// every whole nanosecond below 64 s - 2^-18 s = 63 999 996 185.30 ns
+	verifAssume(delay <= 63999996185)
 	rns := sns + delay
 	verifAssume(rns < verifNTPEraEndNs)
 	ext := NewAbsSendTimeExtension(send)
